@@ -359,6 +359,8 @@ func main() {
 		return
 	}
 	vf.Main("C21", "exploration", func(r *vf.Run) {
+		r.Watchdog("wedged")
+		r.Watchdog("reconnect")
 		r.Rule("byte streams delivered to a session cut at OpenSent / OpenConfirm / Established (Established: after 0–2 more valid UPDATE/KEEPALIVE; a third of the streams arrives in 2–4 pieces). Single-defect streams: every header length 0…18 and the 4097…65535 boundaries × 4 message types × 3 cuts, lengths 19…4096 the type rules out, every marker byte, unknown types, random garbage; OPEN with version ≠ 4, identifier 0, hold time 1/2, wrong AS; valid classic UPDATEs with exactly one RFC 4271 §6.3 defect (length sums, fixed attribute sizes, AS_PATH/COMMUNITIES sizes, prefix length 33+, short NLRI, missing ORIGIN/AS_PATH/NEXT_HOP, ORIGIN value, segment type, attribute flags, unrecognised well-known attribute, attribute twice) confirmed by the independent classifier. Multi-defect streams: attribute type sweep 0…255 × declared length 0…8 × flag nibbles, MP_REACH/MP_UNREACH without NLRI over AFI/SAFI/next-hop-length, NLRI with host bits, 1–3 spliced mutants of the valid corpus, valid control streams. distinct_nontrivial = distinct (generator, cut, what bio-rd did: closed with which NOTIFICATIONs / stayed open)")
 		r.Assume("a fresh server per stream: victim peer and canary peer share one bgpServer, VRF and Loc-RIB",
 			"a damaged multiprotocol attribute is not judged on the NOTIFICATION (RFC 4760 §7 allows ignoring it)",
